@@ -634,6 +634,9 @@ func (x *Exec) specCall(env *SpecEnv, e *ECall) Value {
 			obj = arg(0)
 		}
 		return sc(x.ghostGet(env.st, e.Fn, obj, SInt))
+	case "openflags":
+		// flag argument of the most recent os.OpenFile call of this function
+		return sc(x.ghostGet(env.st, "openflags", OpaqueV{T: Int(0)}, SInt))
 	case "oserr":
 		return sc(x.ghostGet(env.st, "oserr", OpaqueV{T: Int(0)}, SBool))
 	case "closed", "readfailed", "locked":
